@@ -744,6 +744,15 @@ pub fn c08(scn: &Scenario, tr: &[Ev]) -> Vec<Violation> {
 pub fn c09(scn: &Scenario, tr: &[Ev]) -> Vec<Violation> {
     let ix = Ix::new(scn, tr);
     let mut out = Vec::new();
+    // nothing in these scenarios is scripted to panic: a panic (other than the refusal of capacity 0) means a send
+    // failed where it should have waited
+    for e in tr {
+        if let EvK::Panic { msg, .. } = &e.k {
+            if !msg.starts_with("injected") && !msg.contains("Mailbox capacity must be greater than 0") {
+                v(&mut out, "C09 a full mailbox makes the sender wait", format!("panic: {}", msg.lines().next().unwrap_or("")));
+            }
+        }
+    }
     for (a, ax) in ix.actors.iter().enumerate() {
         let spec = &scn.actors[a];
         if spec.cap == Some(0) {
